@@ -39,8 +39,9 @@ def _patterns(funcname):
         if isinstance(n, ast.Call) and isinstance(n.func, ast.Attribute):
             if n.func.attr == "compile" and n.args and isinstance(n.args[0], ast.Constant):
                 pats.append(n.args[0].value)
-            if n.func.attr in ("match", "search", "fullmatch"):
-                how.append(n.func.attr)
+        # the match method, called (p.match(x)) or passed on as a bound method (filter(p.match, names))
+        if isinstance(n, ast.Attribute) and n.attr in ("match", "search", "fullmatch"):
+            how.append(n.attr)
     if len(pats) != 1 or len(how) != 1:
         raise loader.BindingError("APK.%s: expected exactly one compiled pattern and one match call" % funcname)
     return pats[0], how[0]
